@@ -110,7 +110,7 @@ theorem select_some_if_any_available_partial : ∀ (p : Policy) (w : Bool) (pool
     omega
   | .keyed false fb, w, pool, ds, hl, ha => by
     simp only [select]
-    exact select_some_if_any_available_partial fb false pool ds (by simpa [liveOK] using hl) ha
+    exact select_some_if_any_available_partial fb w pool ds (by simpa [liveOK] using hl) ha
   | .cookie none fb, w, pool, ds, hl, ha => by
     simp only [select]
     intro hnone
@@ -156,11 +156,12 @@ theorem weightedRR_some_if_any_available_partial (ws : List Nat) (pool : Pool) (
 
 /-! ## No policy panics — except where the tree does -/
 
-/-- FULL STATEMENT (fails, see `select_never_panics_full_fails_…` in Witness.lean):
-    `(select w p pool ds).res.isPanic = false`.
+/-- FULL STATEMENT (fails, see `select_never_panics_full_fails_index` / `…_divide` in
+    Witness.lean): `(select w p pool ds).res.isPanic = false`.
     Proved when (a) weighted round robin has fewer than two weights, or a positive total weight
-    and at least as many weights as upstreams, and (b) no cookie policy sits below a header / query
-    policy whose key is absent (it would be handed a nil ResponseWriter). -/
+    and at least as many weights as upstreams, and (b) `Select` was given a ResponseWriter or the
+    request reaches no cookie policy (`nilSafe`; see `select_never_panics_with_writer_partial`
+    for the proxy handler's case, where (b) is always true). -/
 theorem select_never_panics_partial : ∀ (p : Policy) (w : Bool) (pool : Pool) (ds : List Nat),
     panicOK pool p = true → nilSafe w p = true → (select w p pool ds).res.isPanic = false
   | .first, w, pool, ds, _, _ => by simp only [select]; exact selFirst_noPanic pool
@@ -173,7 +174,7 @@ theorem select_never_panics_partial : ∀ (p : Policy) (w : Bool) (pool : Pool) 
   | .keyed true fb, w, pool, ds, _, _ => by simp only [select]; exact selHash_noPanic pool
   | .keyed false fb, w, pool, ds, h1, h2 => by
     simp only [select]
-    exact select_never_panics_partial fb false pool ds (by simpa [panicOK] using h1) (by simpa [nilSafe] using h2)
+    exact select_never_panics_partial fb w pool ds (by simpa [panicOK] using h1) (by simpa [nilSafe] using h2)
   | .cookie none fb, w, pool, ds, h1, h2 => by
     simp only [select]
     simp [nilSafe] at h2
@@ -192,6 +193,13 @@ theorem select_never_panics_partial : ∀ (p : Policy) (w : Bool) (pool : Pool) 
       have := select_never_panics_partial fb true pool ds (by simpa [panicOK] using h1) h2
       revert this
       cases (select true fb pool ds).res <;> simp [cookieRes, Res.isPanic]
+
+/-- the proxy handler's case: `Select` is called with a ResponseWriter, through any chain of
+    header / query / cookie fallbacks (header and query pass their writer on) — only the
+    weighted-round-robin exclusion remains -/
+theorem select_never_panics_with_writer_partial (p : Policy) (pool : Pool) (ds : List Nat)
+    (h : panicOK pool p = true) : (select true p pool ds).res.isPanic = false :=
+  select_never_panics_partial p true pool ds h (nilSafe_true p)
 
 /-! ## first: the earliest available upstream -/
 
@@ -404,8 +412,9 @@ theorem keyed_present_is_hash (fb : Policy) (w : Bool) (pool : Pool) (ds : List 
   simp [select]
 
 theorem keyed_absent_is_fallback (fb : Policy) (w : Bool) (pool : Pool) (ds : List Nat) :
-    (select w (.keyed false fb) pool ds).res = (select false fb pool ds).res ∧
-    (select w (.keyed false fb) pool ds).pol = .keyed false (select false fb pool ds).pol := by
+    (select w (.keyed false fb) pool ds).res = (select w fb pool ds).res ∧
+    (select w (.keyed false fb) pool ds).cookies = (select w fb pool ds).cookies ∧
+    (select w (.keyed false fb) pool ds).pol = .keyed false (select w fb pool ds).pol := by
   simp [select]
 
 /-! ## cookie affinity -/
@@ -514,7 +523,12 @@ example : wrrOK exPool [5] = true ∧ anyAvail exPool = true := by decide
 -- select_never_panics_partial
 example : panicOK exPool (.keyed false (.wrr [1, 1, 1, 1, 1] 3)) = true ∧
     nilSafe true (.cookie none (.keyed false (.wrr [1, 1, 1, 1, 1] 3))) = true ∧
-    nilSafe true (.keyed false (.cookie none .first)) = false := by decide
+    nilSafe false (.keyed false (.cookie none .first)) = false := by decide
+-- the `nilSafe` hypothesis is needed only for a caller that hands `Select` a nil ResponseWriter: the cookie
+-- policy then dereferences it (old behaviour of header/query fallbacks before 4a929dc, kept as a regression case)
+example : (select false (.cookie none .first) exPool []).res = .panicNil := by decide
+example : (select true (.keyed false (.cookie none .first)) exPool []).res = .sel 1 ∧
+    (select true (.keyed false (.cookie none .first)) exPool []).cookies = [2] := by decide
 
 -- first_is_earliest
 example : selFirst exPool = .sel 1 := by decide
